@@ -1405,10 +1405,18 @@ def _mp_visit_worker(ready_queue, done_event, callback):
     from queue import Empty
 
     while True:
+        # Sample the "done" flag *before* trying to fetch an item. The flag is
+        # only raised once every item has been flushed into the queue, so if
+        # it was already up before a fetch that came back empty, there is
+        # truly nothing left. Checking it only *after* an empty fetch is racy:
+        # the final items can be enqueued and the flag raised in between, in
+        # which case we would exit and leave them unprocessed.
+        finishing = done_event.is_set()
+
         try:
             args = ready_queue.get(True, timeout=1)
         except Empty:
-            if done_event.is_set():
+            if finishing:
                 break
             continue
 
